@@ -219,6 +219,28 @@ func (a *act) newObject(t types.Type, st *State, hint string) Term {
 		h := e.heapGet(st, name, arrSort(SInt, l.Sort))
 		e.heapSet(st, name, store(h, r, zeroOf(l.Sort)))
 	}
+	// ghost state with a declared initial value (e.g. a zero bytes.Buffer is empty)
+	for _, sf := range e.specFuncs {
+		if !sf.Ghost || sf.Body == nil || len(sf.Params) != 1 {
+			continue
+		}
+		env := e.newEnv(a, st)
+		pt, err := env.parseType(sf.Params[0].Type)
+		if err != nil {
+			continue
+		}
+		pp, ok := pt.Underlying().(*types.Pointer)
+		if !ok || typeKey(pp.Elem()) != typeKey(t) {
+			continue
+		}
+		dv, err := env.eval(sf.Body.E)
+		if err != nil || len(dv.T) != 1 {
+			continue
+		}
+		name := "G_" + sf.Name
+		h := e.heapGet(st, name, arrSort(SInt, dv.T[0].Sort))
+		e.heapSet(st, name, store(h, r, dv.T[0]))
+	}
 	return r
 }
 
